@@ -92,3 +92,10 @@ CHECKS["C12"] = dict(
     design_ref="DESIGN.md 3 C12",
     note="lxml/bz2 extraction is stubbed in the solver runs and exercised only by replays on generated dumps; duplicate page elements and the overwrite flow are outside; one recorded finding ('Main:' prefix in namespace 0).",
 )
+CHECKS["C04"] = dict(
+    engine="E1 CrossHair (kernels, one AST slice)",
+    technique="CrossHair symbolic execution of _template_to_body, the AST-sliced expand_args, if_fn/ifeq_fn/switch_fn and add_newline_to_expansion against reference definitions of the MediaWiki rules",
+    text="Kernels only: the includable part of a template body equals an independent scanner on body skeletons with symbolic filler; parameter references resolve by trimmed name / positional numeral / default / literal for every symbolic name up to the bound; #if, #ifeq and #switch follow the ParserFunctions algorithm for symbolic arguments and every case skeleton; the automatic newline rule holds for all strings up to 3 characters. Confirmed over all paths per condition. The end-to-end statement over template libraries is NOT claimed.",
+    design_ref="DESIGN.md 3 C04",
+    note="Caller-frame expansion, duplicate order, recursion and the missing-template link need the whole expander and are outside; numeric comparison in #ifeq/#switch is a recorded finding; expand_recurse is the identity in the expand_args slice.",
+)
